@@ -1181,6 +1181,51 @@ def neutralise(current_text, baseline_text, names):
     return '\n'.join(out)
 
 
+SKELETON_TOKENS = (
+    r'\b(uninitialized_move|uninitialized_copy|default_uninitialized_copy|uninitialized_fill|uninitialized_value_construct|uninitialized_default_construct|'
+    r'destroy_range|destroy|construct|deallocate|unchecked_allocate|checked_allocate|allocate|'
+    r'set_size|set_data_ptr|set_capacity|set_data|reset_data|wipe|swap_size|swap_allocation|set_default|set_to_inline_storage|increase_size|decrease_size|'
+    r'std::move_backward|std::move|std::copy_n|std::copy|std::fill_n|std::fill|std::swap_ranges|std::swap|copy_range|copy_n_return_in|move_left|move_right|'
+    r'shift_into_uninitialized|erase_range|erase_to_end|erase_at|erase_last|erase_all|'
+    r'GCH_TRY|GCH_CATCH|GCH_THROW|throw_allocation_size_error|throw_index_error|throw_range_length_error|'
+    r'unchecked_calculate_new_capacity|checked_calculate_new_capacity|external_range_length|'
+    r'emplace_into_current_end|emplace_into_current|emplace_into_reallocation_end|emplace_into_reallocation|emplace_at|'
+    r'append_element|append_copies|append_range|insert_range_helper|insert_range|insert_copies|assign_with_copies|assign_with_range|resize_with|'
+    r'move_allocation_pointer|move_assign_default|move_assign_unequal_no_propagate|move_assign|move_initialize|'
+    r'copy_assign_default|copy_assign|swap_default|swap_unequal_no_propagate|swap_elements|swap|'
+    r'maybe_copy|maybe_move|maybe_swap|request_capacity|shrink_to_size|stack_temporary|heap_temporary|unchecked_next|unchecked_prev|unchecked_advance|'
+    r'emplace_back|emplace|push_back|pop_back|append|assign|insert|erase|clear|resize|reserve|shrink_to_fit|move_iter_type|make_move_iterator|'
+    r'return|if|else|for|while|do)\b')
+
+
+def skeletons(h):
+    """the ordered sequence of helper calls, control keywords and try/catch markers of every function body of the three
+    classes: what the hand-written L2 bodies (Prim.lean / Ops.lean) were transliterated from.  Names of locals, comments,
+    layout and the conditions themselves (translated separately as guards) do not enter."""
+    out = {}
+    for cls in ('allocator_interface', 'small_vector_base', 'small_vector'):
+        try:
+            scope = h.class_scope(cls)
+        except Exception:
+            continue
+        names = sorted(set(m.group(1) for m in re.finditer(r'\b([a-z_][a-z_0-9]*)\s*\(', h.code[scope[0]:scope[1]])))
+        seen = {}
+        for fn in names:
+            try:
+                fs = list(h.find_functions(fn, scope))
+            except Exception:
+                continue
+            for f in fs:
+                if not f.get('body'):
+                    continue
+                k = seen.get(fn, 0)
+                seen[fn] = k + 1
+                body = resolve_pp(f['body'])
+                toks = [m.group(1) for m in re.finditer(SKELETON_TOKENS, body)]
+                out['%s::%s#%d' % (cls, fn, k)] = dict(line=f['line'], skeleton=' '.join(toks))
+    return out
+
+
 def main():
     only = [a for a in sys.argv[1:] if not a.startswith('--')]
     save_baseline = '--save-baseline' in sys.argv
@@ -1229,6 +1274,21 @@ def main():
             if ch:
                 changed[name] = ch
     report['changed_vs_baseline'] = changed
+    # the call skeleton of every function body against the one the hand-written model bodies were written from
+    sk = skeletons(h)
+    skp = os.path.join(BASELINE_DIR, 'skeletons.json')
+    if save_baseline:
+        with open(skp, 'w') as f:
+            json.dump(sk, f, indent=1, sort_keys=True)
+    sk_changes = []
+    if os.path.exists(skp):
+        base = json.load(open(skp))
+        for key in sorted(set(base) | set(sk)):
+            b, c = base.get(key), sk.get(key)
+            if b is None or c is None or b['skeleton'] != c['skeleton']:
+                sk_changes.append(dict(function=key, line=(c or b)['line'], before=(b or {}).get('skeleton'), after=(c or {}).get('skeleton')))
+    report['skeleton_changes'] = sk_changes
+    report['skeleton_functions'] = len(sk)
     neut = os.environ.get('VERIF_NEUTRALISE')
     if neut:
         # neutralised build: the changed items are given their baseline definitions again, so that theorems which do not
